@@ -18,7 +18,8 @@ from pykdebugparser.pykdebugparser import PyKdebugParser
 IDFORMS = ['0x40c0548', '40c0548', '0X40C0548', '0x0', 'ffffffff', '0x00000001']
 NAMES = ['A', 'BSC_read', 'a.b-c', 'IO#x', '#n;//']
 SEPS = [' ', '\t', ' \t  ']
-TRAILS = ['', ' #comment', '\textra col']
+TRAILS = ['', ' #comment', '\textra col fd 64 0x2100000c c',      # a tail whose words look like ids, the last one at the very end of the line
+          ' # page 1\x0cfd0 NOT_A_LINE \u2028 fd1 NEITHER']        # a tail holding characters some splitters take for line ends (FF, U+2028)
 
 
 def line(i, n, s, t):
@@ -376,7 +377,7 @@ class C19(Check):
 
     def run_shard(self, desc, acc):
         if desc[0] == 'text2':
-            kinds = [(i, n, s, t) for i in range(6) for n in range(len(NAMES)) for s in range(3) for t in range(3)]
+            kinds = [(i, n, s, t) for i in range(6) for n in range(len(NAMES)) for s in range(3) for t in range(len(TRAILS))]
             first = [k for k in kinds if k[0] == desc[1]]
             for a in first:
                 for rest in [()] + [(b,) for b in kinds]:
